@@ -503,6 +503,9 @@ impl<'source> CodeGenerator<'source> {
                     self.compile_assignment(alias.as_ref().unwrap_or(name));
                 }
                 self.add(Instruction::EndCapture);
+                // the capture only silences the imported template; what
+                // ending it pushes is not an operand of anything.
+                self.add(Instruction::DiscardTop);
             }
             #[cfg(feature = "multi_template")]
             ast::Stmt::Extends(extends) => {
